@@ -2,6 +2,7 @@ package worlds
 
 import (
 	"bytes"
+	"context"
 	"encoding/binary"
 	"fmt"
 	"sort"
@@ -86,6 +87,15 @@ func runC26(r *Run) {
 			}
 		}
 	}
+	switchInFlight := r.W.Pick(4) == 0
+	hangNow := false
+	w.backends["s3"].NextBeh = func(int) backendBehavior {
+		b := w.backends["s3"].Beh
+		if hangNow {
+			b.DialHang = true
+		}
+		return b
+	}
 	joined := 0
 	release := false
 	for i := range names {
@@ -167,6 +177,21 @@ func runC26(r *Run) {
 		}
 		if bc == nil {
 			return
+		}
+		if switchInFlight {
+			// the requester's player has a server switch under way for the whole exchange (the
+			// dial to s3 hangs until its timeout): requests still come from, and answers still
+			// go to, the server it is connected to
+			if pl := w.p.PlayerByName("Req"); pl != nil {
+				r.Op("switch-in-flight")
+				hangNow = true
+				simrt.Go(func() {
+					ctx, cancel := context.WithTimeout(context.Background(), 8*time.Second)
+					defer cancel()
+					_, _ = pl.CreateConnectionRequest(w.p.Server("s3")).Connect(ctx)
+				})
+				simrt.Sleep(50*time.Millisecond, "c26.switch-started")
+			}
 		}
 		for _, q := range reqs {
 			r.Op(q.desc)
@@ -360,7 +385,7 @@ func runC26(r *Run) {
 			}
 		}
 	}
-	if !stop {
+	if !stop && !switchInFlight { // (a failed switch tells the player so in chat)
 		for _, n := range names {
 			if chatAtClient[n] != wantChat[n] {
 				r.Fail("bungee-delivery-missing-or-wrong", "message", "Message/ALL requests call for %d chat message(s) to %s, its client received %d: %s", wantChat[n], n, chatAtClient[n], desc())
